@@ -34,7 +34,8 @@ def required(tier):
               'width:sub-channel': 50, 'start:outside': 10, 'start:edge': 10, 'units:quantity': 50,
               'smear:drift-exact-multiple-of-unit': 40, 'start:edge-entry': 40, 'start:narrow-off-centre': 200})
     b.update({'level-type:' + t: 100 for t in set(LEVEL_TYPES)})
-    b.update({'helper-called-twice': 300, 'helper-called-twice:out-of-band': 50, 'df:negative-argument': 100, 'geometry:python-integers': 60})
+    b.update({'helper-called-twice': 300, 'helper-called-twice:out-of-band': 50, 'df:negative-argument': 100, 'geometry:python-integers': 60,
+              'frame-class:Spectrum': 100, 'frame-class:Spectrum:smeared-faster-than-unit-drift': 15})
     return {'buckets': b, 'counters': {'mandatory_pixels': 5000}, 'checks': 500, 'nontrivial': 200}
 
 
@@ -44,6 +45,11 @@ def gen_cases(seed, tier):
     cases = []
     for i in range(n):
         g = work_sig.gen_geometry(rng, tier, small=(common.stratum(i, 131, 2) == 0))
+        if common.stratum(i, 139, 12) == 5:
+            # a frame of a single time sample held as the library's Spectrum class (what integrate(..., as_frame=True) returns): the
+            # helper is the same helper there
+            g['tchans'] = 1
+            g['cls'] = 'spectrum'
         F = g['fchans']
         prof = common.stratum(i, 132, PROFILES)
         smear = bool(common.stratum(i, 133, 2))
@@ -130,6 +136,10 @@ def run_case(c, R):
     drift = c['d'] * fr.df / fr.dt
     width = c['w'] * fr.df
     R.bucket('profile:' + c['profile'])
+    if g.get('cls') == 'spectrum':
+        R.bucket('frame-class:Spectrum')
+        if c['smear'] and abs(c['d']) > 1:
+            R.bucket('frame-class:Spectrum:smeared-faster-than-unit-drift')
     if g.get('neg_df'):
         R.bucket('df:negative-argument')
     if g.get('int_geom'):
